@@ -143,7 +143,12 @@ def run(plan):
                              f"split {k}, complete query after one whose additional page was lost: {diff}")
                     return
                 w.fire("additional_page_lost_then_complete_query")
+            if plan.get("drop_first_page2"):
+                # the first copy of the additional query (or its answer) is lost, the re-sent one is answered
+                dev.script = [{}, {"drop": True}, {}]
+                w.fire("additional_query_lost_once")
             st, raw_k, snap_k = await query([(recs[:k], plan.get("flag1", True)), (recs[k:], False)], late_dup=bool(plan.get("late_dup")))
+            dev.script = []
             if st != "ok":
                 res.fail(f"get_capabilities {st} on a paged list", f"split {k}: {snap_k if isinstance(snap_k, dict) and st.startswith('changed') else ''}")
                 return
@@ -163,7 +168,7 @@ def run(plan):
     except (SimDeadlock, SimStepLimit) as e:
         res.fail(f"liveness: {type(e).__name__}", str(e))
     res.take(w)
-    res.key = (tuple((c, v) for c, v in plan["records"]), tuple(splits), plan.get("flag"), bool(plan.get("late_dup")), repr(plan.get("flag1")), bool(plan.get("lose_page2_first")), bool(plan.get("fixed_msg_id")))
+    res.key = (tuple((c, v) for c, v in plan["records"]), tuple(splits), plan.get("flag"), bool(plan.get("late_dup")), repr(plan.get("flag1")), bool(plan.get("lose_page2_first")), bool(plan.get("fixed_msg_id")), bool(plan.get("drop_first_page2")))
     res.nontrivial = len(recs) >= 2
     return res
 
@@ -185,6 +190,14 @@ def rand_record(rng):
         cid = 0x0225
         size = rng.randint(1, 5)
     val = bytearray(rand_bytes(rng, size))
+    if cid == 0x0225 and rng.random() < 0.25:
+        # limits a unit may well report: all zero, zero for one mode (cool-only units), min above max
+        val = bytearray(size)
+        if rng.random() < 0.5:
+            for i in range(0, min(size, 6), 2):
+                if rng.random() < 0.5 and i + 1 < size:
+                    val[i], val[i + 1] = rng.choice([(34, 60), (32, 32), (60, 34)])
+        return [cid, bytes(val).hex()]
     if size and rng.random() < 0.7:
         val[0] = rng.choice([0, 1, 2, 3, 4, 5, 6, 7, 9, 10, 11, 12, 13, 100, rng.randrange(256)])
     return [cid, bytes(val).hex()]
@@ -253,7 +266,7 @@ def space(tier):
                 "flag": rng.choice([None, False]), "late_dup": rng.random() < 0.3,
                 # the flag byte announcing a further page: any non-zero value
                 "flag1": rng.choice([True, True, 1, 2, 3, 0x80, 0xFF]), "lose_page2_first": rng.random() < 0.15,
-                "fixed_msg_id": rng.random() < 0.5}
+                "fixed_msg_id": rng.random() < 0.5, "drop_first_page2": rng.random() < 0.15}
     sp.add("random", 2500 if tier == "quick" else 400_000, rnd)
     return sp
 
